@@ -1,2 +1,103 @@
-(* C06 — stub: no theorems yet *)
-From Zap Require Import Base.Wire C06.Model C06.Proofs.
+(* C06 — Panic and Fatal always terminate, after the entry is written and flushed.
+   Only statements closed by [exact]; proofs are in C06/Proofs.v (on top of C05's core-tree theorems).
+   [log_call w lg io (fam_of m) l] is the model of one call of front-end method m at level l on logger
+   lg (core tree, development flag, panic and fatal hooks) in world w (AtomicLevel values): the list
+   of core events (Write / Sync / hook) and the terminal action that ends it, if any. *)
+From Coq Require Import List Bool ZArith.
+Import ListNotations.
+From Zap Require Import Base.Wire C05.Cores C05.CoreProofs C05.Model C06.Model C06.Proofs.
+Open Scope Z_scope.
+
+(* every front-end method that can log at a terminal level (Panic, Fatal, and DPanic in development)
+   - whatever the core tree, the AtomicLevel values, the level filters (so also when the level is
+   disabled or every core is a no-op) and the configured hooks - writes the cores that accepted and
+   then runs the terminal action *)
+Theorem C06_terminates : forall w lg io m l,
+  In m methods -> can_log m l = true -> terminal lg l ->
+  log_call w lg io (fam_of m) l =
+  (write_events io l (cores_of (check w (lcore lg) l None)), Some (expected_action lg l)).
+Proof. exact terminates_thm. Qed.
+Print Assumptions C06_terminates.
+
+(* the same for ANY answer of Core.Check (nil, a sampler that dropped the entry, a custom core):
+   Logger.check attaches the hook regardless, CheckedEntry.Write runs it after the cores *)
+Theorem C06_any_check_answer : forall lg io l e,
+  terminal lg l -> finish lg io l e = (write_events io l (cores_of e), Some (expected_action lg l)).
+Proof. exact finish_terminal. Qed.
+Print Assumptions C06_any_check_answer.
+
+(* the action is the configured hook, except that a nil or WriteThenNoop hook means the default
+   (panic with the message / exit status 1) *)
+Theorem C06_hook_override : forall lg,
+  ((on_fatal lg = HNil \/ on_fatal lg = HNoop) -> expected_action lg FatalL = AExit) /\
+  ((on_panic lg = HNil \/ on_panic lg = HNoop) -> expected_action lg PanicL = APanic /\ expected_action lg DPanicL = APanic) /\
+  (forall k, on_fatal lg = HCustom k -> expected_action lg FatalL = ACustom k) /\
+  (forall k, on_panic lg = HCustom k -> expected_action lg PanicL = ACustom k /\ expected_action lg DPanicL = ACustom k).
+Proof. exact expected_action_defaults. Qed.
+Print Assumptions C06_hook_override.
+
+(* DPanic terminates exactly in development mode *)
+Theorem C06_dpanic_iff_dev : forall w lg io m,
+  In m methods -> can_log m DPanicL = true ->
+  (snd (log_call w lg io (fam_of m) DPanicL) <> None <-> dev lg = true).
+Proof. exact dpanic_iff_dev. Qed.
+Print Assumptions C06_dpanic_iff_dev.
+
+(* no other call ever runs a terminal action (any family, any of the 256 level values) *)
+Theorem C06_no_spurious_termination : forall w lg io f l,
+  ~ terminal lg l ->
+  log_call w lg io f l = (write_events io l (cores_of (check w (lcore lg) l None)), None).
+Proof. exact not_terminal_thm. Qed.
+Print Assumptions C06_no_spurious_termination.
+
+(* before control is lost the entry has been handed to every accepting core, in order, the hooks due
+   have run, every IO core's Write is immediately followed by the Sync of its sink, and a buffered
+   sink (abstractly: Sync moves everything queued to the file) holds every line in the file *)
+Theorem C06_written_first : forall w lg m l,
+  In m methods -> can_log m l = true -> terminal lg l ->
+  let evs := fst (log_call w lg all_io (fam_of m) l) in
+  writes_of evs = delivered w (lcore lg) l /\
+  ev_hooks_of evs = hooks_due w (lcore lg) l /\
+  sync_ok true evs = true /\
+  (forall id, flushed_lines id evs 0 0 = count_writes id (delivered w (lcore lg) l)).
+Proof. exact written_first_thm. Qed.
+Print Assumptions C06_written_first.
+
+(* zapio.Writer (not among the front ends the property enumerates) returns early from Write when its
+   level is disabled, also at Panic/Fatal: the statement holds for it only when the level is enabled
+   (known finding zapio-terminal-disabled) *)
+Theorem C06_zapio_partial : forall w lg io l,
+  enabled w (lcore lg) l = true -> terminal lg l ->
+  log_call w lg io (fam_of zapio_method) l =
+  (write_events io l (cores_of (check w (lcore lg) l None)), Some (expected_action lg l)).
+Proof. exact zapio_partial. Qed.
+Print Assumptions C06_zapio_partial.
+Theorem C06_zapio_full_refuted : ~ zapio_full.
+Proof. exact zapio_full_refuted. Qed.
+Print Assumptions C06_zapio_full_refuted.
+
+(* the code before the zapgrpc fix: Fatalln on a logger with Fatal disabled returned *)
+Theorem C06_terminates_orig_refuted : ~ terminates_orig_full.
+Proof. exact terminates_orig_refuted. Qed.
+Print Assumptions C06_terminates_orig_refuted.
+
+Theorem C06_wire : forall i, wf i = true -> spec i (model i) = true.
+Proof. exact spec_model. Qed.
+Print Assumptions C06_wire.
+
+(* ---- non-vacuity ---- *)
+Definition ex_logger : logger :=
+  {| lcore := Tee [Leaf 0 (ELvl InfoL); Hooked (Leaf 1 (ELvl InvalidL)) 3; Sampled (Leaf 2 (EAtom 0))];
+     dev := true; on_panic := HNoop; on_fatal := HCustom 9 |}.
+Example C06_example_methods : length methods = 58%nat /\ In fatalln methods.
+Proof. vm_compute. split; [reflexivity|tauto]. Qed.
+Example C06_example_fatal :
+  log_call (fun _ => ErrorL) ex_logger all_io FGrpcPrintln FatalL =
+  ([EWrite 0; ESync 0; EWrite 2; ESync 2], Some (ACustom 9)).
+Proof. vm_compute. reflexivity. Qed.
+Example C06_example_dpanic_disabled :
+  log_call (fun _ => InvalidL) {| lcore := Nop; dev := true; on_panic := HNil; on_fatal := HNil |} all_io FSugarln DPanicL = ([], Some APanic) /\
+  log_call (fun _ => InvalidL) {| lcore := Nop; dev := false; on_panic := HNil; on_fatal := HNil |} all_io FSugarln DPanicL = ([], None).
+Proof. vm_compute. split; reflexivity. Qed.
+Example C06_example_wf : wf (SL [SL [SZ 1]; SL []; SZ 1; SL [SZ 0]; SL [SZ 1]; SZ 0; SL [SL [SZ 2; SZ 7; SZ 3; SZ 5]]]) = true.
+Proof. vm_compute. reflexivity. Qed.
